@@ -11,6 +11,7 @@ package verifharness
 //   reset
 //   create <chainId hex> <tlNum> <tlDen> <trustingPeriod> <maxClockDrift> <timeDelay> <latestRev> <latestH>
 //          <consTime> <root hex> <nextValsHash hex> <now>                                  -> ok <dump>
+//   upgrade <same fields as create>      keeper UpgradeClient with a validated client state            -> ok <dump> | rej
 //   upd <now> <trustedRev> <trustedH> <chainId hex> <height> <time> <valsHash> <nextValsHash> <appHash> <structOk>
 //       <headerHash> <hasCommit> <commitHeight> <commitBlockHash> <commitBasicOk> <nsig> {<flag> <addr> <signer> <good>}*
 //       <valset> <valset> | <base64 proto Header> <signer,signer,...>                      -> ok <dump> | rej
@@ -542,6 +543,8 @@ func (w *c07World) apply(r *Rec, op string) string {
 		return "ok"
 	case "create":
 		return w.create(r, f)
+	case "upgrade":
+		return w.upgrade(r, f)
 	case "upd":
 		return w.update(r, op, f)
 	case "vfy":
@@ -587,6 +590,44 @@ func (w *c07World) create(r *Rec, f []string) string {
 	w.cs = cs
 	w.exists = true
 	r.Count("create")
+	return "ok " + w.snap(w.ctx).dump()
+}
+
+// keeper UpgradeClient (what an UpgradeClientProposal executes after ClientState.Validate): the client state is replaced,
+// the consensus state and its metadata are written at the new latest height; older consensus states stay
+func (w *c07World) upgrade(r *Rec, f []string) string {
+	if !w.exists {
+		return "bad-op"
+	}
+	now := c07ParseI(f[12])
+	latest := clienttypes.NewHeight(c07ParseU(f[7]), c07ParseU(f[8]))
+	cs := xibctm.NewClientState(string(unhx(f[1])), xibctm.Fraction{Numerator: c07ParseU(f[2]), Denominator: c07ParseU(f[3])},
+		time.Duration(c07ParseI(f[4])), time.Duration(c07ParseI(f[4]))+time.Hour, time.Duration(c07ParseI(f[5])), latest,
+		commitmenttypes.GetSDKSpecs(), commitmenttypes.MerklePrefix{KeyPrefix: []byte(host.StoreKey)}, c07ParseU(f[6]))
+	if err := cs.Validate(); err != nil {
+		r.Count("upgrade.rejected")
+		return "rej"
+	}
+	cons := &xibctm.ConsensusState{Timestamp: time.Unix(0, c07ParseI(f[9])).UTC(), Root: unhx(f[10]), NextValidatorsHash: unhx(f[11])}
+	pre := w.snap(w.ctx)
+	cctx, write := w.ctx.WithBlockTime(time.Unix(0, now).UTC()).CacheContext()
+	var err error
+	pan, _ := safely(func() { err = w.app.XIBCKeeper.ClientKeeper.UpgradeClient(cctx, c07Client, cs, cons) })
+	if pan || err != nil {
+		r.Count("upgrade.rejected")
+		return "rej"
+	}
+	write()
+	w.cs = cs
+	r.Count("upgrade")
+	switch {
+	case latest.RevisionNumber > pre.latest.RevisionNumber && latest.RevisionHeight < pre.latest.RevisionHeight:
+		r.Count("upgrade.new-revision.smaller-revision-height")
+	case latest.RevisionNumber > pre.latest.RevisionNumber && latest.RevisionHeight == pre.latest.RevisionHeight:
+		r.Count("upgrade.new-revision.equal-revision-height")
+	case latest.RevisionNumber > pre.latest.RevisionNumber:
+		r.Count("upgrade.new-revision.larger-revision-height")
+	}
 	return "ok " + w.snap(w.ctx).dump()
 }
 
@@ -782,12 +823,34 @@ func (w *c07World) oracleUpdate(r *Rec, now int64, hdr *xibctm.Header, infos []c
 	if pt, ok := post.ptime[H]; !ok || pt != uint64(now) {
 		bad("processed-time-is-not-the-block-time", fmt.Sprint(pt), fmt.Sprint(now))
 	}
-	want := pre.latest
-	if H.GT(want) {
+	want := pre.latest // the maximum in the lexicographic (revision number, revision height) order
+	if H.RevisionNumber > pre.latest.RevisionNumber || (H.RevisionNumber == pre.latest.RevisionNumber && H.RevisionHeight > pre.latest.RevisionHeight) {
 		want = H
 		r.Count("upd.accepted.forward")
 	} else {
 		r.Count("upd.accepted.backfill")
+	}
+	multi := false
+	for h := range pre.cons {
+		if h.RevisionNumber != pre.latest.RevisionNumber {
+			multi = true
+		}
+	}
+	switch {
+	case H.RevisionNumber < pre.latest.RevisionNumber && H.RevisionHeight > pre.latest.RevisionHeight:
+		r.Count("upd.accepted.old-revision-backfill")
+		r.Count("upd.accepted.old-revision-backfill.larger-revision-height")
+	case H.RevisionNumber < pre.latest.RevisionNumber && H.RevisionHeight == pre.latest.RevisionHeight:
+		r.Count("upd.accepted.old-revision-backfill")
+		r.Count("upd.accepted.old-revision-backfill.equal-revision-height")
+	case H.RevisionNumber < pre.latest.RevisionNumber:
+		r.Count("upd.accepted.old-revision-backfill")
+		r.Count("upd.accepted.old-revision-backfill.smaller-revision-height")
+	case multi && H.RevisionNumber == pre.latest.RevisionNumber:
+		r.Count("upd.accepted.new-revision-after-upgrade")
+	}
+	if post.latest.LT(pre.latest) {
+		bad("latest-height-lowered", c07H(post.latest), ">= "+c07H(pre.latest))
 	}
 	if post.latest != want {
 		bad("latest-height-is-not-the-maximum", c07H(post.latest), c07H(want))
@@ -1529,6 +1592,10 @@ func TestC07(t *testing.T) {
 	c07Directed(g, run)
 	c07DirectedExpiry(g, run)
 	c07DirectedConfigEdges(g, run)
+	c07DirectedMultiRev(g, run)
+	for i := 0; i < hist/4; i++ {
+		c07HistoryMultiRev(g, run)
+	}
 	for i := 0; i < hist; i++ {
 		c07History(g, run)
 	}
@@ -1932,4 +1999,210 @@ func minU(n uint64) uint {
 		s++
 	}
 	return s
+}
+
+// ---- several revisions in one client store (create, upgrade to the next revision, updates in both) --------------
+
+type c07Sim struct {
+	chainID string
+	rev     uint64
+	blocks  map[int64]*c07Blk
+	lo, hi  int64
+}
+
+func (g *c07Gen) save() *c07Sim {
+	return &c07Sim{chainID: g.chainID, rev: g.rev, blocks: g.blocks, lo: g.lo, hi: g.hi}
+}
+
+func (g *c07Gen) use(s *c07Sim) {
+	g.chainID, g.rev, g.blocks, g.lo, g.hi = s.chainID, s.rev, s.blocks, s.lo, s.hi
+}
+
+func (g *c07Gen) upgradeOp(h0 int64, now int64) string {
+	return "upgrade" + strings.TrimPrefix(g.createOp(h0, now), "create")
+}
+
+// one update of the current sim: header at height tgt trusting (rev, th)
+func (g *c07Gen) simUpd(run func(string) string, tgt int64, trusted clienttypes.Height, now int64, sm []bool, mut int) string {
+	blk := g.block(tgt)
+	tvals := g.block(int64(trusted.RevisionHeight)).next
+	if sm == nil {
+		sm = g.mask(blk.vals, 0, 2, 3)
+	}
+	q := &c07Req{blk: blk, trusted: trusted, tvals: tvals, signMask: sm, nilVote: make([]bool, len(blk.vals)), chainID: g.chainID, hdrTime: blk.time, mut: mut}
+	hd, signers := g.build(q)
+	return run(c07UpdLine(now, hd, signers))
+}
+
+// The history of the report: created at 1-100, upgraded to revision 2 at a smaller / equal / larger revision height, then
+// the old revision is extended and back-filled and the new revision moves forward; the latest height must stay the
+// lexicographic maximum.
+func c07DirectedMultiRev(g *c07Gen, run func(string) string) {
+	t0 := int64(1700000000) * int64(time.Second)
+	for _, hb := range []int64{5, 99, 100, 101, 102, 300} {
+		g.tp, g.drift, g.delay = int64(time.Hour), int64(10*time.Second), 0
+		g.num, g.den = 1, 3
+		g.now = t0
+		vals := c07Vals([]int{1, 2, 3}, []int64{1, 1, 1})
+		a := &c07Sim{chainID: "cpchain-1", rev: 1, blocks: map[int64]*c07Blk{}, lo: 100, hi: 110}
+		for h := int64(100); h <= 110; h++ {
+			a.blocks[h] = &c07Blk{h: h, time: t0 + (h-100)*1e9, vals: vals, next: vals, app: g.w.pf.root}
+		}
+		b := &c07Sim{chainID: "cpchain-2", rev: 2, blocks: map[int64]*c07Blk{}, lo: hb, hi: hb + 10}
+		for h := hb; h <= hb+10; h++ {
+			b.blocks[h] = &c07Blk{h: h, time: t0 + 20e9 + (h-hb)*1e9, vals: vals, next: vals, app: g.w.pf.root}
+		}
+		run("reset")
+		g.use(a)
+		run(g.createOp(100, t0+1e9))
+		g.use(b)
+		run(g.upgradeOp(hb, t0+21e9))
+		g.use(a)
+		g.simUpd(run, 101, clienttypes.NewHeight(1, 100), t0+30e9, nil, 0) // old revision, adjacent, revision height above/below 2-hb
+		g.simUpd(run, 105, clienttypes.NewHeight(1, 101), t0+31e9, nil, 0) // old revision, skipping
+		g.use(b)
+		run(g.vfyOp(t0+32e9, clienttypes.NewHeight(2, uint64(hb)), 1)) // a proof at the new revision is still below the latest height
+		g.simUpd(run, hb+1, clienttypes.NewHeight(2, uint64(hb)), t0+33e9, nil, 0)
+		g.use(a)
+		g.simUpd(run, 103, clienttypes.NewHeight(1, 101), t0+34e9, nil, 0) // old revision, back-fill
+		g.simUpd(run, 106, clienttypes.NewHeight(2, uint64(hb)), t0+35e9, nil, 0) // trusted height of the other revision: rejected
+		g.use(b)
+		g.simUpd(run, hb+4, clienttypes.NewHeight(2, uint64(hb+1)), t0+36e9, nil, 0)
+		run(g.vfyOp(t0+37e9, clienttypes.NewHeight(2, uint64(hb+4)), 1))
+		run(g.vfyOp(t0+37e9, clienttypes.NewHeight(1, 105), 1))
+		g.r.Count("directed.multirev")
+	}
+}
+
+func c07HistoryMultiRev(g *c07Gen, run func(string) string) {
+	r := g.r
+	g.tp = []int64{int64(time.Hour), int64(14 * 24 * time.Hour)}[g.rn(2)]
+	g.drift = int64(10 * time.Second)
+	g.delay = []uint64{0, 0, uint64(5 * time.Second)}[g.rn(3)]
+	tl := [][2]uint64{{1, 3}, {1, 2}, {2, 3}}[g.rn(3)]
+	g.num, g.den = tl[0], tl[1]
+	prefix := []string{"cpchain", "cp-chain", "x"}[g.rn(3)]
+	n := []uint64{1, 1, 2, 3, 12, 99}[g.rn(6)]
+	t0 := int64(1700000000)*int64(time.Second) + int64(g.rn(1000000))
+	step := g.tp / int64(400+g.rn(400))
+	// revision N
+	g.chainID, g.rev = fmt.Sprintf("%s-%d", prefix, n), n
+	loA := int64(1 + g.rn(200))
+	g.buildChain(loA, 24, t0, step)
+	a := g.save()
+	hA := loA + int64(g.rn(4))
+	g.now = a.blocks[hA].time + 1 + int64(g.rn(1000))
+	run("reset")
+	if run(g.createOp(hA, g.now)) == "rej" {
+		return
+	}
+	tick := func() int64 {
+		g.now += 1 + int64(g.rn(int(minI64(step, 2e9))))
+		return g.now
+	}
+	latestOf := func(rev uint64) (clienttypes.Height, []clienttypes.Height) {
+		var hs []clienttypes.Height
+		for _, h := range g.storedHeights() {
+			if h.RevisionNumber == rev {
+				hs = append(hs, h)
+			}
+		}
+		if len(hs) == 0 {
+			return clienttypes.Height{}, nil
+		}
+		return hs[len(hs)-1], hs
+	}
+	// a few forward updates in revision N
+	for i := g.rn(4); i > 0; i-- {
+		top, _ := latestOf(n)
+		tgt := int64(top.RevisionHeight) + 1 + int64(g.rn(3))
+		if tgt > a.hi {
+			break
+		}
+		if g.now < a.blocks[tgt].time {
+			g.now = a.blocks[tgt].time
+		}
+		g.simUpd(run, tgt, top, tick(), nil, 0)
+	}
+	// upgrade to revision N+1 (rarely N+2) at a revision height below / equal / above the current one
+	cur := g.w.snap(g.w.ctx).latest
+	L := int64(cur.RevisionHeight)
+	hB := []int64{1 + int64(g.rn(5)), L - 1, L, L + 1, L + 2 + int64(g.rn(50)), L / 2, loA + int64(g.rn(24))}[g.rn(7)]
+	if hB < 1 {
+		hB = 1
+	}
+	m := n + 1
+	if g.rn(8) == 0 {
+		m = n + 2
+	}
+	g.chainID, g.rev = fmt.Sprintf("%s-%d", prefix, m), m
+	g.buildChain(hB, 24, g.now-int64(g.rn(1000)), step)
+	b := g.save()
+	if run(g.upgradeOp(hB, tick())) == "rej" {
+		return
+	}
+	// updates in both revisions
+	steps := 4 + g.rn(8)
+	for s := 0; s < steps; s++ {
+		sim, other := a, b
+		if g.rn(2) == 0 {
+			sim, other = b, a
+		}
+		g.use(sim)
+		top, hs := latestOf(sim.rev)
+		if len(hs) == 0 {
+			continue
+		}
+		if g.rn(5) == 0 {
+			h := hs[g.rn(len(hs))]
+			if g.rn(4) == 0 {
+				h.RevisionHeight++
+			}
+			run(g.vfyOp(g.now+int64(g.delay), h, []int{1, 1, 1, 2, 0}[g.rn(5)]))
+			continue
+		}
+		ti := len(hs) - 1
+		if g.rn(3) == 0 {
+			ti = g.rn(len(hs))
+		}
+		trusted := hs[ti]
+		th := int64(trusted.RevisionHeight)
+		var tgt int64
+		switch x := g.rn(10); {
+		case x < 4:
+			tgt = th + 1
+		case x < 7:
+			tgt = th + 2 + int64(g.rn(4))
+		case x < 9 && ti+1 < len(hs) && int64(hs[ti+1].RevisionHeight) > th+1: // back-fill inside the revision
+			tgt = th + 1 + int64(g.rn(int(int64(hs[ti+1].RevisionHeight)-th-1)))
+		default:
+			tgt = int64(top.RevisionHeight) + 1
+			trusted = top
+		}
+		if tgt > sim.hi || tgt < sim.lo {
+			continue
+		}
+		if g.rn(12) == 0 { // trusted height of the other revision
+			if o, ohs := latestOf(other.rev); len(ohs) > 0 {
+				trusted = o
+				r.Count("multirev.cross-revision-trusted")
+			}
+		}
+		if g.now < sim.blocks[tgt].time {
+			g.now = sim.blocks[tgt].time
+		}
+		var sm []bool
+		switch g.rn(8) {
+		case 0:
+			sm = g.mask(sim.blocks[tgt].vals, 3, 2, 3)
+		case 1:
+			sm = g.mask(sim.blocks[tgt].vals, 4, 2, 3)
+		}
+		mut := 0
+		if g.rn(10) == 0 {
+			mut = 1 + g.rn(c07NMut-1)
+		}
+		g.simUpd(run, tgt, trusted, tick(), sm, mut)
+	}
+	r.Count("multirev.history")
 }
